@@ -16,13 +16,14 @@ MC = base.MC
 TRACE = base.TRACE
 
 C14_ACTIONS = ['PotentialParents', 'AttemptOk', 'Incoming', 'Level', 'Close', 'WaitClosedDone',
-               'ServerSearch', 'DistSearch', 'LegacyWrapped']
+               'ExcludedPhrases', 'ServerSearch', 'DistSearch', 'LegacyWrapped']
 
 # the share of the client under test: a public and a friends-only directory
 SHARE = dict(
     dirs=[
         dict(path='zzpublic', mode='everyone',
-             files=['alpha/red apple.mp3', 'alpha/green apple.flac', 'beta/blue berry.mp3', 'beta/Mixed CASE tune.MP3']),
+             files=['alpha/red apple.mp3', 'alpha/green apple.flac', 'beta/blue berry.mp3', 'beta/Mixed CASE tune.MP3',
+                    'delta/apple_red.mp3', 'delta/Berry-Blue.flac', 'Red/Apple/cider.ogg']),
         dict(path='zzfriends', mode='friends',
              files=['gamma/red cherry.mp3', 'gamma/secret apple.ogg']),
     ],
@@ -32,30 +33,69 @@ HIT_QUERIES = ['apple', 'red', 'blue berry', 'cherry', 'APPLE  green', 'alpha', 
                'secret', 'Berry Blue beta', 'apple -secret -green']
 MISS_QUERIES = ['banana', 'red berry', 'app', 'apple -apple', 'cherry -red', '-apple', 'alpha gamma', 'berries']
 OWN_HIT = ['apple', 'red', 'mp3', 'cherry']
+# server-excluded phrases (looked for literally in the path, ignoring case) with, for each, queries that
+# contain the phrase and still match files whose path does not (other separator / order / directory
+# levels), and queries whose matches all contain it
+PHRASES = {
+    'Red Apple': dict(phr=['red apple', 'RED APPLE mp3', 'red apple -green'],
+                      gone=['alpha red', 'red apple alpha']),
+    'blue berry': dict(phr=['blue berry', 'Blue Berry flac'], gone=['beta berry', 'blue berry mp3']),
+}
 TICKETS = [1, 2, 7, 65536, 2147483647, 0]
 OTHER_CODES = [4, 5, 7, 93, 0]
 ASKER_NAMES = [dict(u1='stranger', u2='my friend'), dict(u1='Someone Else', u2='friend2'), dict(u1='u', u2='f')]
 
 
 def concretise(abstract, rng, *, variant: int):
-    """One concrete stimulus per abstract one (C14 configurations contain no GetUserStats)."""
-    out, world = [], None
-    for st in abstract:
+    """Abstract stimuli -> concrete ones.  On top of what C13 does: queries / askers / tickets for the
+    searches, the phrases of ExcludedSearchPhrases, and the loop slot of a request: now and then a
+    connection that has nothing to do with the request (a bystander's peer connection, a candidate that
+    is neither parent nor child) closes in the very slot in which the request arrives."""
+    groups, world = base.concretise_groups(abstract, rng, variant=variant)
+    phrases = []                         # in force
+    out = []
+    bystander = False
+    softclose = None
+    if any(s[0] == 'search' for s in abstract) and rng.random() < 0.6:
+        out.append(('bystander',))
+        bystander = True
+    for n, (st, grp) in enumerate(zip(abstract, groups)):
+        if st[0] == 'xphr':
+            phrases = rng.sample(sorted(PHRASES), rng.choice([1, 1, 2])) if st[1] else []
+            out.append(('xphr', [ph if rng.random() < 0.5 else ph.upper() for ph in phrases]))
+            continue
         if st[0] != 'search':
-            conc, world = base.concretise([st], rng, variant=variant)
-            out.append(conc[-1])
+            if st[0] == 'close' and st[1] == softclose:
+                grp = [('closeifopen',) + tuple(g[1:]) for g in grp]
+            softclose = None
+            out.extend(grp)
             continue
         _, carrier, frm, u, q, code = st
+        pool = None
+        if phrases and q in ('qphr', 'qgone'):
+            pool = [x for ph in phrases for x in PHRASES[ph]['phr' if q == 'qphr' else 'gone']]
         if u == 'me':
             asker = 'me'
-            query = rng.choice(OWN_HIT if q == 'qhit' else MISS_QUERIES)
+            query = rng.choice(pool or (MISS_QUERIES if q == 'qmiss' else OWN_HIT))
         else:
             asker = rng.choice(['u1', 'u1', 'u2'])
-            query = rng.choice(HIT_QUERIES if q == 'qhit' else MISS_QUERIES)
+            query = rng.choice(pool or (MISS_QUERIES if q == 'qmiss' else HIT_QUERIES))
         num = 3 if code == 'search' else rng.choice(OTHER_CODES)
-        out.append(('search', carrier, frm, asker, rng.choice(TICKETS), query, num))
-    if world is None:
-        _, world = base.concretise([], rng, variant=variant)
+        srch = ('search', carrier, frm, asker, rng.choice(TICKETS), query, num)
+        nxt = abstract[n + 1] if n + 1 < len(abstract) else None
+        if bystander and rng.random() < 0.5:
+            out.append(('burst', srch, ('bygone',)))
+            bystander = False
+            if rng.random() < 0.7:
+                out.append(('bystander',))
+                bystander = True
+        elif nxt is not None and nxt[0] == 'close' and nxt[1] != frm and rng.random() < 0.6:
+            # the model closes another peer next: same slot, if that peer is unrelated at that moment
+            # (otherwise the burst ends after the request and the close follows as usual)
+            out.append(('burst', srch, ('closeother', nxt[1], 'eof')))
+            softclose = nxt[1]
+        else:
+            out.append(srch)
     an = ASKER_NAMES[variant % len(ASKER_NAMES)]
     world['askers'] = dict(me=world['me'], u1=an['u1'], u2=an['u2'])
     world['share'] = SHARE
@@ -84,7 +124,7 @@ def _fp(tid, info, trace):
             last = next((e for e in reversed(trace[:idx + 1]) if e.get('ev') == 'search'), None)
             prop = 'ForwardExactlyOnce' if ev.get('ev') == 'pf' else 'ReplyIffMatches'
             return f"C14:{prop}:{shape}:after-{last['carrier'] if last else 'no'}-search"
-        if srch and srch['u'] == 'me':
+        if srch and srch['u'] == 'me' and (name == 'OwnSearchSilent' or ev.get('ev') in ('reply', 'pf')):
             what = {'reply': 'own-search-answered', 'pf': 'own-search-forwarded'}.get(ev.get('ev'), shape)
             return f'C14:OwnSearchSilent:{what}:{site}'
         return f'C14:{name}:{shape}:{site}'
@@ -165,7 +205,8 @@ def run(chk: Check, args):
     if thorough:
         for cfg, label in [('MC_c14_big.cfg', '3 peers, 4 events, 2 searches'),
                            ('MC_c14_big_slow.cfg', '3 peers, 5 events, 1 search, back-pressured child links')]:
-            r = tlc.model_check(MC, cfg, expect_actions=C14_ACTIONS, timeout=3000)
+            acts = [a for a in C14_ACTIONS if not (a == 'ExcludedPhrases' and 'slow' in cfg)]
+            r = tlc.model_check(MC, cfg, expect_actions=acts, timeout=3000)
             chk.add_model(f'DistributedTree C14, all repairs, {label}', r)
     else:
         r = tlc.model_check(MC, 'MC_c14_quick.cfg', expect_actions=C14_ACTIONS, timeout=3000)
@@ -173,12 +214,8 @@ def run(chk: Check, args):
 
     scheds = collect(chk, thorough)
     keys = sorted(scheds, key=lambda s: (not scheds[s].startswith('counterexample'), repr(s)))
-    cap = 5000 if thorough else 700
-    if len(keys) > cap:
-        head = [k for k in keys if scheds[k].startswith('counterexample')]
-        rest = [k for k in keys if not scheds[k].startswith('counterexample')]
-        chk.rng.shuffle(rest)
-        keys = head + sorted(rest[:cap - len(head)], key=repr)
+    cap = 5000 if thorough else 600
+    keys = base.sample_by_source(chk, scheds, keys, cap)
 
     traces, metas = [], []
     truncated = 0
@@ -239,7 +276,14 @@ def run(chk: Check, args):
         'Matches(asker, query) is computed in the trace spec from the share recorded in the trace: a file matches '
         'when every included word occurs as a whole word in its path below the shared directory and no excluded '
         'word does (case-insensitive); locked = file of the friends-only directory and asker not a friend. '
-        'Wildcards, excluded phrases and nested shared directories are C07/C08 matters and are not generated',
+        'Server-excluded phrases (ExcludedSearchPhrases) are an environment action: the trace names the files whose '
+        'path contains a phrase literally (ignoring case) and Matches leaves them out; queries that contain the '
+        'phrase but match other paths are generated. Wildcards and nested shared directories are C07/C08 matters',
+        'a current child is a peer whose distributed connection was taken as child and has not been closed since '
+        '(bound from the snapshots and the links, not from the client\'s list at the time of the request)',
+        'now and then an unrelated connection (a bystander\'s peer connection, a candidate that is neither parent nor '
+        'child) closes in the loop slot in which a request arrives; GetUserStats outcomes that lower the child limit '
+        'while children are connected are part of the generated histories',
         'search requests come from the server only while there is no parent, and over the distributed network only '
         'from the current parent (the statement speaks of nothing else)',
         'every asker (also the own user name) has an address at the scripted server and accepts the connection',
